@@ -174,7 +174,7 @@ class C20(Prop):
     id = "C20"
     title = "Immutable configuration: values change only through authorised, logged mutations"
     fixed_prefix = 1
-    extractors = ["py2lean-genome"]
+    extractors = ["py2lean-genome", "eval-genome"]
     quick_budget = 2500
     thorough_budget = 30000
     quick_deadline_s = 100
@@ -208,7 +208,10 @@ class C20(Prop):
                         "Operon.Genome.step over a store of genomes; for add_gene, mutate, rollback_mutation, "
                         "set_expression, silence_gene, activate_gene and the gate of replicate the model functions are "
                         "proved EQUAL to the machine translation of the current source (Operon/Gen/GenomeTranslated.lean, "
-                        "regenerated on every run; theorems c20_translation_agrees_*)"]
+                        "regenerated on every run; theorems c20_translation_agrees_*); the per-gene filter of express, "
+                        "get_value and the gate decisions of mutate / rollback_mutation / add_gene (settings from the "
+                        "constructor or assigned later) are proved equal to decision tables EVALUATED on the real class on "
+                        "every run (Operon/Gen/GenomeTables.lean; theorems c20_*_agrees_with_evaluated_source)"]
 
     def setup(self, ctx):
         import_repo()
@@ -217,8 +220,9 @@ class C20(Prop):
 
     def extract(self, ctx):
         from .. import core
-        from ..extract import py2lean_genome
-        return py2lean_genome.run(core.REPO, core.LEAN, core.write_if_changed, module=getattr(self, "m", None))
+        from ..extract import py2lean_genome, eval_genome
+        return (py2lean_genome.run(core.REPO, core.LEAN, core.write_if_changed, module=getattr(self, "m", None))
+                + eval_genome.run(core.LEAN, core.write_if_changed, module=getattr(self, "m", None)))
 
     # --- generation ------------------------------------------------------------------------------------
     VALPOOL = [0, 1, 1, 2, 3, 5, 7, 100, 101, 102, 103, 104, 105]
